@@ -22,6 +22,12 @@ theories/Event/Stream.vos theories/Event/Stream.vok theories/Event/Stream.requir
 theories/Event/Merge_order_proofs.vo theories/Event/Merge_order_proofs.glob theories/Event/Merge_order_proofs.v.beautified theories/Event/Merge_order_proofs.required_vo: theories/Event/Merge_order_proofs.v theories/Base/Prelude.vo theories/Base/Bytes.vo theories/Event/Merge.vo theories/Event/Merge_proofs.vo
 theories/Event/Merge_order_proofs.vio: theories/Event/Merge_order_proofs.v theories/Base/Prelude.vio theories/Base/Bytes.vio theories/Event/Merge.vio theories/Event/Merge_proofs.vio
 theories/Event/Merge_order_proofs.vos theories/Event/Merge_order_proofs.vok theories/Event/Merge_order_proofs.required_vos: theories/Event/Merge_order_proofs.v theories/Base/Prelude.vos theories/Base/Bytes.vos theories/Event/Merge.vos theories/Event/Merge_proofs.vos
+theories/Event/Collection.vo theories/Event/Collection.glob theories/Event/Collection.v.beautified theories/Event/Collection.required_vo: theories/Event/Collection.v theories/Base/Prelude.vo theories/Event/Merge.vo theories/Event/Stream.vo
+theories/Event/Collection.vio: theories/Event/Collection.v theories/Base/Prelude.vio theories/Event/Merge.vio theories/Event/Stream.vio
+theories/Event/Collection.vos theories/Event/Collection.vok theories/Event/Collection.required_vos: theories/Event/Collection.v theories/Base/Prelude.vos theories/Event/Merge.vos theories/Event/Stream.vos
+theories/Event/Collection_proofs.vo theories/Event/Collection_proofs.glob theories/Event/Collection_proofs.v.beautified theories/Event/Collection_proofs.required_vo: theories/Event/Collection_proofs.v theories/Base/Prelude.vo theories/Base/Bytes.vo theories/Event/Merge.vo theories/Event/Merge_proofs.vo theories/Event/Stream.vo theories/Event/Collection.vo
+theories/Event/Collection_proofs.vio: theories/Event/Collection_proofs.v theories/Base/Prelude.vio theories/Base/Bytes.vio theories/Event/Merge.vio theories/Event/Merge_proofs.vio theories/Event/Stream.vio theories/Event/Collection.vio
+theories/Event/Collection_proofs.vos theories/Event/Collection_proofs.vok theories/Event/Collection_proofs.required_vos: theories/Event/Collection_proofs.v theories/Base/Prelude.vos theories/Base/Bytes.vos theories/Event/Merge.vos theories/Event/Merge_proofs.vos theories/Event/Stream.vos theories/Event/Collection.vos
 theories/Parse/Dispatch.vo theories/Parse/Dispatch.glob theories/Parse/Dispatch.v.beautified theories/Parse/Dispatch.required_vo: theories/Parse/Dispatch.v theories/Base/Prelude.vo
 theories/Parse/Dispatch.vio: theories/Parse/Dispatch.v theories/Base/Prelude.vio
 theories/Parse/Dispatch.vos theories/Parse/Dispatch.vok theories/Parse/Dispatch.required_vos: theories/Parse/Dispatch.v theories/Base/Prelude.vos
@@ -49,6 +55,9 @@ theories/Parse/Tree.vos theories/Parse/Tree.vok theories/Parse/Tree.required_vos
 theories/Parse/Tree_proofs.vo theories/Parse/Tree_proofs.glob theories/Parse/Tree_proofs.v.beautified theories/Parse/Tree_proofs.required_vo: theories/Parse/Tree_proofs.v theories/Base/Prelude.vo theories/Parse/Tree.vo
 theories/Parse/Tree_proofs.vio: theories/Parse/Tree_proofs.v theories/Base/Prelude.vio theories/Parse/Tree.vio
 theories/Parse/Tree_proofs.vos theories/Parse/Tree_proofs.vok theories/Parse/Tree_proofs.required_vos: theories/Parse/Tree_proofs.v theories/Base/Prelude.vos theories/Parse/Tree.vos
+theories/Props/C18.vo theories/Props/C18.glob theories/Props/C18.v.beautified theories/Props/C18.required_vo: theories/Props/C18.v theories/Base/Prelude.vo theories/Event/Merge.vo theories/Event/Merge_proofs.vo theories/Event/Stream.vo theories/Event/Collection.vo theories/Event/Collection_proofs.vo
+theories/Props/C18.vio: theories/Props/C18.v theories/Base/Prelude.vio theories/Event/Merge.vio theories/Event/Merge_proofs.vio theories/Event/Stream.vio theories/Event/Collection.vio theories/Event/Collection_proofs.vio
+theories/Props/C18.vos theories/Props/C18.vok theories/Props/C18.required_vos: theories/Props/C18.v theories/Base/Prelude.vos theories/Event/Merge.vos theories/Event/Merge_proofs.vos theories/Event/Stream.vos theories/Event/Collection.vos theories/Event/Collection_proofs.vos
 theories/Props/C19.vo theories/Props/C19.glob theories/Props/C19.v.beautified theories/Props/C19.required_vo: theories/Props/C19.v theories/Base/Prelude.vo theories/Parse/Tree.vo theories/Parse/Tree_proofs.vo
 theories/Props/C19.vio: theories/Props/C19.v theories/Base/Prelude.vio theories/Parse/Tree.vio theories/Parse/Tree_proofs.vio
 theories/Props/C19.vos theories/Props/C19.vok theories/Props/C19.required_vos: theories/Props/C19.v theories/Base/Prelude.vos theories/Parse/Tree.vos theories/Parse/Tree_proofs.vos
